@@ -2,6 +2,7 @@
 # usage: matrix.sh <patch>...  : applies each patch to a scratch copy of /repo and runs all 20 quick checks;
 # prints which properties' checks report a violation.
 for patch in "$@"; do
+  patch=$(readlink -f "$patch")
   d=$(mktemp -d "${TMPDIR:-/tmp}/verif-mut.XXXXXX"); out=$(mktemp -d "${TMPDIR:-/tmp}/verif-out.XXXXXX")
   rsync -a --exclude .git /repo/ "$d/"
   if ! (cd "$d" && patch -p1 -s < "$patch"); then echo "$(basename $patch): PATCH-FAILED"; rm -rf "$d" "$out"; continue; fi
